@@ -82,8 +82,14 @@ def run(p, led, tier):
         return
     led.ok("C05-R0", "ATP_Store ▸ lock construction sites", where(store.methods["__init__"], store.methods["__init__"].node) if "__init__" in store.methods else "operon_ai/state/metabolism.py",
            "threading locks are assigned only in the constructor (and unpickling / copying hooks)")
+    if len(la.locks) > 1:
+        # a second lock for something else (a listener list): the store lock is the one whose regions write the balances
+        guards = sorted(a for a in la.locks if any(isinstance(x, ast.Attribute) and isinstance(x.ctx, ast.Store) and is_self_attr(x) and x.attr in ("atp", "gtp", "nadh")
+                                                    for m_ in la.methods() for w_, a_ in regions(m_, la.locks) if a_ == a for st_ in w_.body for x in ast.walk(st_)))
+        if len(guards) == 1:
+            la.locks = {guards[0]: la.locks[guards[0]]}
     if len(la.locks) != 1:
-        raise AnchorError(f"ATP_Store is expected to own exactly one threading lock attribute; found {sorted(la.locks)}")
+        raise AnchorError(f"ATP_Store is expected to own exactly one threading lock attribute that guards the balances; found {sorted(la.locks)}")
     lock = next(iter(la.locks))
     kind = la.locks[lock]
     held_entry = la.held_on_entry(lock)
